@@ -93,7 +93,7 @@ func TestC06(t *testing.T) {
 	defer os.RemoveAll(root)
 	st, dir := newAgent(root, 1, "", "", "")
 	lib := verifx.CheapDir(dir, 1)
-	init0 := c06state{"root": {"rootpw", true}, "u": {"upw", false}, "v": {"vpw", false}, "w": {"wpw", true}}
+	init0 := c06state{"root": {"rootpw", true}, "u": {"upw", false}, "v": {"vpw", false}, "w": {"wpw", true}, "U": {"Upw-upper", false}, "Root": {"Rootpw-upper", false}}
 	for n, r := range init0 {
 		must(lib.AddUser(n, r.pw, r.admin))
 	}
@@ -138,11 +138,11 @@ func TestC06(t *testing.T) {
 		{name: "admin-session+old-password", session: tAdmin, valid: true, sessUser: "root", sessAdmin: true, oldpw: "right"},
 		{name: "user-session+old-password", session: tUser, valid: true, sessUser: "u", oldpw: "right"},
 	}
-	targets := []string{"u", "v", "root", "zz", "bad/name", "w"}
+	targets := []string{"u", "v", "root", "zz", "bad/name", "U", "Root", "w"}
 	shapes := []string{"ok", "empty-username", "missing-fields", "wrong-types", "not-json", "trailing-garbage"}
 	endpoints := []string{"add", "remove", "update", "set-admin", "list", "list-full"}
 	if !ev.Thorough() {
-		targets = targets[:5]
+		targets = targets[:7]
 	}
 
 	type node struct {
